@@ -10,5 +10,22 @@ def fill(s, tag, text):
     return s[:a] + "\n" + text.strip() + "\n" + s[b:]
 s = fill(s, "FINDINGS-TABLE", subprocess.run(["python3", os.path.join(ROOT, "lib", "mkfindings.py")], stdout=subprocess.PIPE, text=True).stdout)
 s = fill(s, "SEED-TABLE", subprocess.run(["python3", os.path.join(ROOT, "lib", "mkseedtable.py")], stdout=subprocess.PIPE, text=True).stdout)
+import json, sys
+sys.path.insert(0, os.path.join(ROOT, "lib"))
+import manifest_data as md
+rows = ["| id | level | spec directories | harness bins | last evidence: tier, TLC distinct states, cases run on the real code, wall | open deviations attributed |", "|---|---|---|---|---|---|"]
+for pid in ["C%02d" % i for i in range(1, 21)]:
+    c = md.CHECKS.get(pid)
+    if not c:
+        rows.append("| %s | not claimed | | | | |" % pid)
+        continue
+    evp = os.path.join(ROOT, "evidence", pid + ".json")
+    ev = json.load(open(evp)) if os.path.exists(evp) else None
+    cov = ev["coverage"] if ev else {}
+    bins = ", ".join(c.get("bins", []) + [b + " (tokio)" for b in c.get("tokio_bins", [])]) or "generated crate gen/"
+    rows.append("| %s | %s | %s | %s | %s | %s |" % (pid, c["level"], ", ".join("spec/" + d for d in c.get("specs", [])), bins,
+        ("%s, %s states, %s cases, %ss" % (ev["tier"], cov.get("states", "-"), max(cov.get("evaluations", 0), cov.get("traces_validated_against_impl", 0)), int(ev["wall_s"]))) if ev else "-",
+        ", ".join(sorted((ev or {}).get("known_findings_hit", {}))) or "-"))
+s = fill(s, "STATUS-TABLE", "\n".join(rows))
 open(p, "w").write(s)
 print("DESIGN.md tables refreshed")
